@@ -182,6 +182,12 @@ func (ms *Modules) add(n Node) error {
 	if o := m[fullName]; o != nil {
 		return fmt.Errorf("duplicate %s %s at %s and %s", kind, fullName, Source(o), Source(n))
 	}
+	// The full name of a module without a revision is its bare name, which
+	// is also the alias of the latest revision: the two cannot be loaded
+	// together, whichever comes first.
+	if o := m[name]; o != nil && o.FullName() == name {
+		return fmt.Errorf("duplicate %s %s at %s and %s", kind, name, Source(o), Source(n))
+	}
 	m[fullName] = mod
 	// A new module may share a namespace that has already been looked up;
 	// forget the cached answers.
